@@ -224,7 +224,9 @@ def run_case(spec, ctx):
                     n_t = np.cos(delta) * pole + np.sin(delta) * perp
                     other = cs[0] if mover is subs[1] else cs[1]
                     q[mover.my_qDOF[:3]] = other + sgn * want * n_t
-                    hrel = min(1e-4, delta * 1e-2)
+                    # (the angular change of the normal along a difference step is step / centre distance: the step is scaled
+                    #  with the distance as well - point-like spheres may sit 0.05 apart - and with the size of the coordinates)
+                    hrel = min(1e-4, delta * 1e-2 * min(1.0, want) / max(1.0, float(np.abs(q[mover.my_qDOF[:3]]).max())))
                     ctx.cls(f"state:normal_near_tangent_pole:1e{int(np.floor(np.log10(delta)))}")
             ctx.cls(f"state:{['open', 'touching', 'penetrating'][k % 3]}:{'nonunit' if 'nonunit' in qc else 'unit'}")
             if first_state is None:
